@@ -6,6 +6,11 @@
      cx <ring> <ddeg> <L> <c_0 .. c_(L-1)> <rows_0 .. rows_(L-1)> <mat_0> .. <mat_(L-1)>
           GenericChainComplex::generate(0..L, ddeg, i -> mat_i (rows_i x c_i)).homology()
           ->  per degree  i:R=.. T=.. F=.. B=.. G=<generators> E=<vectorize_euc of the boundaries>   joined by " ; "
+     mg <ring> <ddeg> <valid> <L> <c_i> <rows_i> <mat_i> <sd_0> .. <sd_(L-1)>
+          a complex whose summands carry coordinate maps (Model/HomologyMerge.v); sd = 0 | 1 r F B | 2 r1 F1 B1 r2 F2 B2
+          (merged, reduced) | 3 r1 F1 B1 r2 F2 B2 (merged, two factors); per degree the three routes
+          b_homology_merge (R T F B G E D), b_homology_at (LF LB), b_homology_merge_twice (TF TB)
+     rd <ring> <ddeg> <L> ...   (as cx)  ->  per degree  i:R=<rank> N=<number of torsion summands>  of the raw complex
    A panic / None is "P".  Entries: integers, `a:b` quadratic integers, `n/d` rationals.
    Matrices are printed as `mxn:row;row;..` with rows `e,e,..`; vectors as `[e,e,..]`. *)
 let sl = Stdlib.List.map
@@ -126,6 +131,96 @@ let run_cx io ddeg toks =
              (String.concat "" gens) (String.concat "" bnds)) hs))
   | _ -> failwith "bad cx case"
 
+
+(* ---------- complexes whose summands carry coordinate maps ---------- *)
+exception Pan
+let some = function Some x -> x | None -> raise Pan
+let ( >>= ) x f = match x with Some a -> f a | None -> None
+
+let parse_complex io ddeg toks =
+  match toks with
+  | l :: rest ->
+    let l = int_of_string l in
+    let dims = sl int_of_string (take l rest) in
+    let rest = drop l rest in
+    let rows = sl int_of_string (take l rest) in
+    let rest = ref (drop l rest) in
+    let mats = Stdlib.List.map2 (fun c r ->
+        let m = mat_of io r c (take (r * c) !rest) in
+        rest := drop (r * c) !rest; m) dims rows in
+    let arr = Array.of_list mats in
+    let zero00 = { nr = nat_of_int 0; nc = nat_of_int 0; ent = [] } in
+    let dm (i : z) = let k = int_of_z i in if k >= 0 && k < l then arr.(k) else zero00 in
+    let support = Stdlib.List.init l z_of_int in
+    (l, dims, { c_support = support; c_ddeg = z_of_int ddeg; c_dmat = dm }, !rest)
+  | _ -> failwith "bad complex"
+
+let parse_desc io c rest : 'r summand option =
+  let num () = match !rest with x :: r -> rest := r; int_of_string x | [] -> failwith "too few tokens" in
+  let mat m n = let e = take (m * n) !rest in rest := drop (m * n) !rest; mat_of io m n e in
+  let n = nat_of_int in
+  let v = num () in
+  match v with
+  | 0 -> Some (summand_free (n c))
+  | 1 ->
+    let r1 = num () in let f1 = mat r1 c in let b1 = mat c r1 in
+    trans_new f1 b1 >>= fun t -> summand_new (n c) (n r1) [] t
+  | 2 | 3 ->
+    let r1 = num () in let f1 = mat r1 c in let b1 = mat c r1 in
+    let r2 = num () in let f2 = mat r2 r1 in let b2 = mat r1 r2 in
+    if v = 2 then
+      (trans_new f1 b1 >>= fun t -> summand_new (n c) (n r1) [] t) >>= fun s ->
+      (trans_new f2 b2 >>= fun t -> summand_new (n r1) (n r2) [] t) >>= fun mid ->
+      summand_merge (o io) s mid
+    else
+      trans_new f1 b1 >>= fun t1 -> trans_new f2 b2 >>= fun t2 ->
+      trans_merged t1 t2 >>= fun tm -> summand_new (n c) (n r2) [] tm
+  | _ -> failwith "bad summand descriptor"
+
+let run_mg io ddeg toks =
+  match toks with
+  | _valid :: toks ->
+    let (l, dims, raw, rest) = parse_complex io ddeg toks in
+    let rest = ref rest in
+    let descs = Array.of_list (sl (fun c -> parse_desc io c rest) dims) in
+    if !rest <> [] then failwith "too many tokens";
+    (try
+       let sums = Array.map some descs in
+       let bc = { b_raw = raw; b_summand = (fun i -> let k = int_of_z i in if k >= 0 && k < l then sums.(k) else summand_zero) } in
+       let fm t = str_mat io (some (forward_mat (o io) t)) and bm t = str_mat io (some (backward_mat (o io) t)) in
+       String.concat " ; " (Stdlib.List.init l (fun k ->
+           let i = z_of_int k in
+           let sm = some (hm_homology_merge io.dict bc i) in
+           let slib = some (hm_homology_at io.dict bc i) in
+           let st = some (hm_homology_merge_twice io.dict bc i) in
+           let dim = int_of_nat sm.s_rank + Stdlib.List.length sm.s_tors in
+           let gens = Stdlib.List.init dim (fun j -> str_vec io (some (gen (o io) sm (nat_of_int j)))) in
+           let kin = k - ddeg in
+           let bnds =
+             if kin >= 0 && kin < l then begin
+               let d = some (d_matrix (o io) raw (z_of_int kin)) in
+               Stdlib.List.init (int_of_nat d.nc) (fun j ->
+                   let col = Stdlib.List.init (int_of_nat d.nr) (fun r -> mget (o io) d (nat_of_int r) (nat_of_int j)) in
+                   str_vec io (some (vectorize_euc (o io) (hc_rem io.dict) sm col)))
+             end else [] in
+           let ones = Stdlib.List.init dim (fun _ -> (o io).rone) in
+           let dv = str_vec io (some (devectorize (o io) sm ones)) in
+           Printf.sprintf "%d:R=%s T=%s F=%s B=%s G=%s E=%s D=%s LF=%s LB=%s TF=%s TB=%s" k
+             (string_of_nat sm.s_rank) (str_tors io sm.s_tors) (fm sm.s_trans) (bm sm.s_trans)
+             (String.concat "" gens) (String.concat "" bnds) dv
+             (fm slib.s_trans) (bm slib.s_trans) (fm st.s_trans) (bm st.s_trans)))
+     with Pan -> "P")
+  | _ -> failwith "bad mg case"
+
+let run_rd io ddeg toks =
+  let (_, _, raw, rest) = parse_complex io ddeg toks in
+  if rest <> [] then failwith "too many tokens";
+  match hc_homology io.dict raw with
+  | None -> "P"
+  | Some hs ->
+    String.concat " ; " (sl (fun (i, h) ->
+        Printf.sprintf "%d:R=%s N=%d" (int_of_z i) (string_of_nat h.s_rank) (Stdlib.List.length h.s_tors)) hs)
+
 let handle (line : string) : string =
   match split_ws line with
   | kind :: ring :: x :: toks ->
@@ -133,6 +228,8 @@ let handle (line : string) : string =
       (match kind with
        | "hc" -> run_hc io (x = "1") toks
        | "cx" -> run_cx io (int_of_string x) toks
+       | "mg" -> run_mg io (int_of_string x) toks
+       | "rd" -> run_rd io (int_of_string x) toks
        | _ -> failwith "bad case") in
     (match ring with
      | "i32" -> go (z_io z_dict)
